@@ -116,6 +116,16 @@ def search_case(k, rng, nq):
                 synpos.setdefault(ssid, rng.choice([pos, pos, 'n', 's']))
         words.append([f'{lex}-w{j}', lex, pos, lemma, forms, senses])
     scope = rng.choice([['L'], ['L'], ['L', 'M'], ['M']])
+    # an extension X of L that adds further forms to L's entries (X is then always
+    # selected together with L: forms of an unselected extension are C04's finding)
+    extforms = {}
+    if rng.random() < 0.45:
+        for w in words:
+            if w[1] == 'L' and rng.random() < 0.7:
+                extforms[w[0]] = [f for f in rng.sample(FORMS, rng.choice([1, 1, 2]))
+                                  if f != w[3] and f not in w[4]]
+        if extforms:
+            scope = ['L', 'X'] if rng.random() < 0.7 else ['L', 'X', 'M']
     if not any(w[1] in scope for w in words):
         words[0][1] = scope[0]
         words[0][0] = f'{scope[0]}-w0'
@@ -141,7 +151,8 @@ def search_case(k, rng, nq):
                 if rng.random() < 0.5:
                     qs.append([rng.choice(['words', 'senses', 'synsets']), q,
                                rng.choice(['~', '~', 'n', 'v']), True, rng.random() < 0.7, lem])
-    return {'id': k, 'words': words, 'synpos': sorted(synpos.items()), 'scope': scope, 'queries': qs}
+    return {'id': k, 'words': words, 'synpos': sorted(synpos.items()), 'scope': scope, 'queries': qs,
+            'extforms': extforms}
 
 
 def c09(tier: str) -> int:
